@@ -36,8 +36,9 @@ TRUSTED_BASE = [
     "streamer hardware semantics as documented (words = base + sum tau_k*ts_k + sum p_l*ss_l, 8 bytes each)",
 ]
 ASSUMPTIONS = [
-    "the per-accelerator set_stride_patterns customisations (gemmx, xDMA) are checked by L2 only (inserted patterns are "
-    "disabled or duplicates), not modelled in Coq",
+    "gemmx and xDMA set_stride_patterns are modelled (Model/C02Gemmx.v, C02Xdma.v) and L1-checked; the hardware meaning of a "
+    "`zero address` slot and of the add extension's 512-byte second operand is taken from the code comments",
+    "the aligned tiled-strided linearity theorem covers one index dimension; multi-dimensional tiled operands are L1/L2 only",
     "dynamic shapes/symbols are outside the passes' domain (they raise)",
 ]
 ELS = {"i8": 1, "i16": 2, "i32": 4, "i64": 8}
@@ -189,6 +190,8 @@ def impl_resolve(n, bounds, ops):
         t = AffineTransform.from_affine_map(p.data)
         assert t.A.shape[0] == 1 and int(t.b[0]) == 0
         out.append([int(x) for x in t.A[0]])
+    # the constant term goes to the base pointer (repaired F5b): constant added to the aligned pointer
+    impl_resolve.offsets = [pointer_offset(v) for v in ap.operands]
     return out, mod
 
 
@@ -461,7 +464,7 @@ def correspondence(ctx):
     rng = ctx.rng
     groups = []
     # layout resolution
-    cases, meta = [], []
+    cases, meta, ocases, ometa = [], [], [], []
     for i in range(ctx.n(80, 400)):
         n, bounds, ops = gen_resolve_op(rng)
         try:
@@ -469,13 +472,17 @@ def correspondence(ctx):
         except Exception as e:   # noqa: BLE001
             ctx.notes.append(f"layout resolution raised {e!r} on {ops}")
             continue
-        for o, st in zip(ops, strides):
+        for o, st, po in zip(ops, strides, impl_resolve.offsets):
+            ocases.append(f"({coq_layout(o['shape'], o['layout'])}, {zlit(ELS[o['el']])}, {coqlist(zlist(r) for r in o['rows'])}, "
+                          f"{zlist(o['offs'])}, {n}%nat, {zlit(po)})")
+            ometa.append({"n": n, "bounds": bounds, "operand": o, "pointer_offset": po})
             cases.append(f"({coq_layout(o['shape'], o['layout'])}, {zlit(ELS[o['el']])}, {coqlist(zlist(r) for r in o['rows'])}, "
                          f"{zlist(o['offs'])}, {n}%nat, {zlist(st)})")
             meta.append({"n": n, "bounds": bounds, "operand": o, "strides": st})
             ctx.count({"kind": "resolve", "bounds": bounds, "operand": o, "strides": st},
                       sum(1 for b in bounds if b > 1) >= 2, f"rs{bounds}{o}", "resolve:" + o["layout"][0])
     groups.append(("resolve", "chk_resolve", cases, meta))
+    groups.append(("resolve-offset", "chk_resolve_base", ocases, ometa))
 
     # conversion
     conv, convm, fin, finm, okb, okbm, strm, strmm, cus, cusm = [], [], [], [], [], [], [], [], [], []
@@ -556,6 +563,17 @@ def expected_steps(memref_type, amap, bounds, n_spatial, relevant, el):
     return steps
 
 
+def pointer_offset(v):
+    """constant byte offset added to an extracted aligned pointer (0 when the pointer is used as is)"""
+    from xdsl.dialects import arith
+    o = v.owner
+    if isinstance(o, arith.AddiOp):
+        for a, b in ((o.lhs, o.rhs), (o.rhs, o.lhs)):
+            if isinstance(b.owner, arith.ConstantOp):
+                return int(b.owner.value.value.data) + pointer_offset(a)
+    return 0
+
+
 def bytes_of(addrs, w):
     return sorted(a + k for a in addrs for k in range(w))
 
@@ -604,7 +622,8 @@ def l2_alu_case(spec):
     probs = []
     for oi, p in enumerate(sr.stride_patterns.data):
         ub, ts, ss = ([x.data for x in p.upper_bounds], [x.data for x in p.temporal_strides], [x.data for x in p.spatial_strides])
-        got = nest_words(ub, ts, ss, [4])
+        poff = pointer_offset(sr.operands[oi])
+        got = [[a + poff for a in w] for w in nest_words(ub, ts, ss, [4])]
         want = expected_steps(types[oi], maps[oi], bounds, 1, [True] * n, ELS[ops[oi]["el"]])
         gb = [bytes_of(w, 8) for w in got]
         wb = [bytes_of(a, ELS[ops[oi]["el"]]) for a in want]
@@ -625,8 +644,9 @@ def l2_alu_case(spec):
             f0, other = _F0[p["operand"]]
             oi = p["operand"]
             pt = sr.stride_patterns.data[oi]
-            got = nest_words([x.data for x in pt.upper_bounds], [x.data for x in pt.temporal_strides],
-                             [x.data for x in pt.spatial_strides], [4])
+            poff = pointer_offset(sr.operands[oi])
+            got = [[a + poff for a in w] for w in nest_words([x.data for x in pt.upper_bounds], [x.data for x in pt.temporal_strides],
+                                                             [x.data for x in pt.spatial_strides], [4])]
             want = expected_steps(types[oi], maps[oi], bounds, 1, [True] * n, ELS[ops[oi]["el"]])
             g = [b for w in got for b in bytes_of(w, 8)]
             w_ = [b - f0 for a in want for b in bytes_of(a, ELS[ops[oi]["el"]])]
